@@ -144,11 +144,14 @@ def main(argv):
             known_hits.setdefault(e["key"], [e, 0])
             known_hits[e["key"]][1] += fl["count"]
         else:
-            path = core.write_replay(prop, b, fl)
-            rel = os.path.relpath(path, core.VERIF)
-            print("VIOLATION property=%s replay=%s  [%s] x%d %s" % (prop, rel, b, fl["count"], fl["msg"][:400]))
             violations += 1
             rc = 1
+            if violations <= 12:
+                path = core.write_replay(prop, b, fl)
+                rel = os.path.relpath(path, core.VERIF)
+                print("VIOLATION property=%s replay=%s  [%s] x%d %s" % (prop, rel, b, fl["count"], fl["msg"][:400]))
+            elif violations == 13:
+                print("(further violation buckets are not listed one by one; see the evidence file)")
     for key, (e, n) in sorted(known_hits.items()):
         print("KNOWN-FINDING: property=%s %s (reproduced on %d case(s))" % (prop, e["what_fails"], n))
 
@@ -168,6 +171,8 @@ def main(argv):
             "maxima": {k: ctx.maxima[k] for k in sorted(ctx.maxima)},
             "shards": nshards,
             "known_findings_reproduced": {k: v[1] for k, v in known_hits.items()},
+            "violation_buckets": {b: fl["count"] for b, fl in sorted(ctx.failures.items())
+                                  if core.known_entry_for(b, known) is None},
             "trusted_base": getattr(module, "TRUSTED", []),
             "explanation": getattr(module, "EXPLANATION", ""),
             "exhaustive": False,
